@@ -102,6 +102,28 @@ fn main() {
             let code = runner::replay(scenarios::lookup, &path, &known);
             std::process::exit(code);
         }
+        "dump" => {
+            // paseto-sim dump <property> --run I [--seed S] [--tier t]: the generated event list and what
+            // executing it observes (debugging aid)
+            let prop = args.get(2).cloned().unwrap_or_default();
+            let sc = match scenarios::lookup(&prop) {
+                Some(s) => s,
+                None => std::process::exit(2),
+            };
+            let tier = match arg_val(&args, "--tier").as_deref() {
+                Some("thorough") => Tier::Thorough,
+                _ => Tier::Quick,
+            };
+            let ctx = gen::GenCtx { verif_seed: seed, tier, inbox: vec![] };
+            let index: u64 = arg_val(&args, "--run").and_then(|s| s.parse().ok()).unwrap_or(0);
+            if let Some(run) = (sc.gen)(&ctx, index) {
+                let (obs, j) = runner::exec_obs_and_judge(sc, &run);
+                for (i, (e, o)) in run.events.iter().zip(obs.iter()).enumerate() {
+                    println!("[{}] {}\n     -> {}", i, serde_json::to_string(e).unwrap(), serde_json::to_string(o).unwrap());
+                }
+                println!("trace: {}", j.trace.join(" | "));
+            }
+        }
         "judge" => {
             let path = args.get(2).cloned().unwrap_or_default();
             std::process::exit(runner::judge_file(scenarios::lookup, &path, &known));
